@@ -824,4 +824,54 @@ theorem G.all_back {C : Cfg} {s : St} (g : G C s) (hsec : ∀ k, k < C.secs.leng
     · rw [hd d (w.line_discons l hl d hdm).1] at hdo; exact absurd hdo (by simp)
   · rfl
 
+/-! ### which breakers an operation opens -/
+
+theorem cbOpenOp_cbOpen (C : Cfg) (s : St) (c : Nat) : (cbOpenOp C s c).cbOpen = s.cbOpen.set c true := by
+  unfold cbOpenOp
+  simp only [lineDisconnect]
+  have key : ∀ (ds : List Nat) (x : St), (ds.foldl (fun s d => if gb s.dOpen d then s else disconOpen C s d) x).cbOpen = x.cbOpen := by
+    intro ds
+    induction ds with
+    | nil => intro x; rfl
+    | cons a as ih =>
+      intro x
+      simp only [List.foldl_cons]
+      rw [ih]
+      split_ifs <;> rfl
+  rw [key]
+
+/-- `Section.disconnect` opens no breaker that the section does not list -/
+theorem secDisconnect_opens_listed (C : Cfg) (s : St) (k c : Nat) (h : gb (secDisconnect C s k).cbOpen c = true) :
+    gb s.cbOpen c = true ∨ Sw.breaker c ∈ (secOf C k).switches := by
+  unfold secDisconnect at h
+  simp only at h
+  have h1 : ((C.secs.getD k default).lines.foldl lineDisconnect { s with secConn := s.secConn.set k false }).cbOpen = s.cbOpen := by
+    have : ∀ (ls : List Nat) (x : St), (ls.foldl lineDisconnect x).cbOpen = x.cbOpen := by
+      intro ls
+      induction ls with
+      | nil => intro x; rfl
+      | cons a as ih => intro x; simp only [List.foldl_cons]; rw [ih]; rfl
+    rw [this]
+  have key : ∀ (sws : List Sw) (x : St), gb (sws.foldl (swOpen C) x).cbOpen c = true → gb x.cbOpen c = true ∨ Sw.breaker c ∈ sws := by
+    intro sws
+    induction sws with
+    | nil => intro x hx; exact Or.inl hx
+    | cons a as ih =>
+      intro x hx
+      simp only [List.foldl_cons] at hx
+      rcases ih _ hx with h' | h'
+      · cases a with
+        | discon d => exact Or.inl h'
+        | breaker c' =>
+          change gb (cbOpenOp C x c').cbOpen c = true at h'
+          rw [cbOpenOp_cbOpen, gb_set] at h'
+          split_ifs at h' with hc
+          · exact Or.inr (hc.1 ▸ List.mem_cons_self)
+          · exact Or.inl h'
+      · exact Or.inr (List.mem_cons_of_mem _ h')
+  rcases key _ _ h with h' | h'
+  · rw [h1] at h'; exact Or.inl h'
+  · exact Or.inr h'
+
+
 end Relsad.Control
